@@ -116,9 +116,7 @@ func (f UpdateHandlerFunc) HandleUpdate(s *channel.State, u ChannelUpdate, r *Up
 
 // Accept accepts the channel update.
 func (r *UpdateResponder) Accept(ctx context.Context) error {
-	defer func() {
-		r.done <- struct{}{}
-	}()
+	defer r.signalDone()
 
 	if ctx == nil {
 		return errors.New("context must not be nil")
@@ -130,11 +128,20 @@ func (r *UpdateResponder) Accept(ctx context.Context) error {
 	return r.channel.acceptUpdate(ctx, r.pidx, r.req)
 }
 
+// signalDone tells the update handler that the responder has been used. The
+// signal has one slot and nobody waits for it on the virtual channel paths, so
+// a repeated call (which fails with an error) must not wait for a free slot:
+// it would block for ever with the channel's machine lock held.
+func (r *UpdateResponder) signalDone() {
+	select {
+	case r.done <- struct{}{}:
+	default:
+	}
+}
+
 // Reject rejects the channel update.
 func (r *UpdateResponder) Reject(ctx context.Context, reason string) error {
-	defer func() {
-		r.done <- struct{}{}
-	}()
+	defer r.signalDone()
 
 	if ctx == nil {
 		return errors.New("context must not be nil")
